@@ -26,9 +26,11 @@ type GenOpts struct {
 	Refresh       bool     // resumes may carry a refreshed contact / environment
 	WrongResumes  bool     // deliberately unacceptable resume types
 	Restarts      bool     // draw a restart bit per step
+	RestartBias   bool     // restart before two thirds of the resumes instead of half
 	LowLimits     bool     // draw small engine limits
 	FrozenClocks  bool     // some scenarios run with a clock that stands still within a sprint
 	ResumeLimits  bool     // draw a small MaxResumesPerSession in half of the scenarios (other limits stay default)
+	Collations    bool     // half of the environments set input_collation (confusables, arabic_variants)
 	NumberFormats bool     // a quarter of the environments use "," as decimal symbol and "." for digit grouping
 	Inputs        []string // extra input texts
 	MaxSteps      int      // resumes per scenario (default 6)
@@ -53,6 +55,9 @@ func DrawEnv(t *rapid.T, o GenOpts) M {
 	}
 	if o.Redaction && rapid.IntRange(0, 2).Draw(t, "redact") == 0 {
 		m["redaction_policy"] = "urns"
+	}
+	if o.Collations && rapid.Bool().Draw(t, "hascollation") {
+		m["input_collation"] = rapid.SampledFrom([]string{"arabic_variants", "arabic_variants", "confusables", "default"}).Draw(t, "collation")
 	}
 	if o.NumberFormats && rapid.IntRange(0, 3).Draw(t, "numberformat") == 0 {
 		m["number_format"] = M{"decimal_symbol": ",", "digit_grouping_symbol": "."}
@@ -352,7 +357,11 @@ func DrawStep(t *rapid.T, r *Runner, w *world.World, o GenOpts) (Step, bool) {
 	b, _ := json.Marshal(res)
 	st := Step{Resume: b}
 	if o.Restarts {
-		st.Restart = rapid.Bool().Draw(t, "restart")
+		if o.RestartBias {
+			st.Restart = rapid.IntRange(0, 2).Draw(t, "restartbiased") > 0
+		} else {
+			st.Restart = rapid.Bool().Draw(t, "restart")
+		}
 	}
 	return st, true
 }
